@@ -75,7 +75,12 @@ fn digits_after_in(s: &str) -> J {
 
 impl Page {
     pub fn new(facts: Facts) -> Self {
-        Page { facts, imp: JsInterpreter::new(), core: Interpreter::default(), core_latch: None, core_orphan: vec![], full: true, timers: 0, input_on: true,
+        // the page seeds the generator once, when it is created (main.ts: randomize(Date.now())); a fixed seed stands in
+        let mut imp = JsInterpreter::new();
+        imp.randomize(987_654_321);
+        let mut core = Interpreter::default();
+        core.randomize(987_654_321);
+        Page { facts, imp, core, core_latch: None, core_orphan: vec![], full: true, timers: 0, input_on: true,
                shown: vec![], trap: None, unfaithful: vec![] }
     }
 
@@ -350,7 +355,7 @@ pub fn record(seed: u64, n: usize, facts: Facts, out: &str, rep: &mut Report) {
         "10 I=I+1\n20 GOTO 10", "", "REM x\n\n10 STOP:PRINT \"S\"", "10 FOR I=1 TO 3:PRINT I:NEXT I\n20 INPUT B$\n30 PRINT B$;B$",
         "10 GOSUB 100\n20 END\n100 PRINT \"é\":RETURN", "10 PRINT \"unterminated\n20 PRINT 2", "5 DIM A(2)\n10 A(3)=1",
     ];
-    const TEXTS: &[&str] = &["NEW", "RUN", "CONT", "15 PRINT 7", "PRINT 1/0", "5", "abc", "\"", "PRINT 2:PRINT 3", "LIST", "TRACE", "10", "X=1:STOP:PRINT X", "1,2", "GOTO 10", "INPUT Q", "", "   ", "STATS", "STATS", "A$=\"abcdefghijk\"+\"lmnop\":PRINT A$",
+    const TEXTS: &[&str] = &["NEW", "RUN", "CONT", "15 PRINT 7", "PRINT 1/0", "5", "abc", "\"", "PRINT 2:PRINT 3", "LIST", "TRACE", "10", "X=1:STOP:PRINT X", "1,2", "GOTO 10", "INPUT Q", "", "   ", "STATS", "STATS", "PRINT INT(RND(1)*1000)", "PRINT RND(0)", "A$=\"abcdefghijk\"+\"lmnop\":PRINT A$",
                              "  \"", " X = 1..2", "   PRINT 1 ~ 2", "\tPRINT \"a", "  10 PRINT ~", "  PRINT 1/0", " 20 PRINT \"é\" ~"];
     let mut f = std::io::BufWriter::new(std::fs::File::create(out).expect("create trace"));
     for i in 0..n as u64 {
